@@ -194,9 +194,15 @@ class CallMixin:
         arguments - its definition is only used by the arithmetic-mode proofs"""
         flat = []
         for a in args:
+            if isinstance(a, NoneV):
+                flat.append(z3.BoolVal(True))
+                flat.append(z3.RealVal(0))
+                continue
             if isinstance(a, Opt):
                 flat.append(a.isnone)
                 a = a.val
+            elif self.is_num(a) and is_real(a):
+                flat.append(z3.BoolVal(False))
             if not is_term(a):
                 raise Unsupported(f"opaque spec function {name}: non-scalar argument")
             flat.append(a)
